@@ -53,4 +53,12 @@ PROPS = {
         "trusted_base": ["the `time` crate (RFC 3339 parser transliterated into the model; calendar replaced by a proved proleptic Gregorian model) — tied by correspondence", "serde glue of Timestamp (JSON round trip exercised by the oracle on every accepted value)", "a Timestamp is modelled as its unix second count, so Ord = order of unix seconds holds by construction in the model and is tied to the code by the cmp stream only"],
         "assumptions": [],
     },
+    "C10": {
+        "translate": True,
+        "diff_is_violation": False,
+        "trivial": ["bad-request", "err"],
+        "rule": "streams: (1) corpus; (2) EXHAUSTIVE strings of length <= 3 (thorough 4) over a 24-symbol adversarial alphabet (% : / ? # . - _ ~ + 0 9 a f z A F space tab newline DEL e-acute emoji NUL) after `did:m:` offered to CoreDID::parse and DIDUrl::parse, length <= 2 (3) after `did:m:a/`, `did:m:a?`, `did:m:a#`, `did:m:%41`, `did:`, `did:m`, `` and as prefix (surrounding whitespace); join / set_path / set_query / set_fragment over 12 base values x ~2400 segments (sampled in quick), set_method_name / set_method_id over all strings of length <= 2 + special values; (3) grammar-based random DID URLs with percent triples and typed corruptions; Eq/Ord/Hash on random and hand-picked pairs. Implementation-side oracle: verbatim string form, recomposition, W3C character syntax per component, no URL parts in a plain DID, re-parse equality, serde round trip, Eq/Ord/Hash agreement. Non-trivial = reply not err/bad-request; distinct request lines.",
+        "trusted_base": ["did_url_parser 0.3.0 is third-party: transliterated into the model (with its defects) and tied by correspondence; its buffer-editing setters are modelled at component level", "re-parse of joined/edited DID URL values is correspondence-only (two residual classes are known findings)", "serde glue (String round trip)"],
+        "assumptions": [],
+    },
 }
